@@ -128,12 +128,13 @@ class TwinSemLock:
         self.hooks = {}
         self.handle, self.name = 0, name
 
-    def _p(self):
-        return self.procs[self.s.tname()]
+    def _p(self, who=None):
+        return self.procs[who or self.s.tname()]
 
-    def _mine(self):
-        p = self._p()
-        return self.cnt.get(p, 0) != 0 and self.own.get(p) == self.tids[self.s.tname()]
+    def _mine(self, who=None):
+        who = who or self.s.tname()
+        p = self._p(who)
+        return self.cnt.get(p, 0) != 0 and self.own.get(p) == self.tids[who]
 
     def _is_mine(self):
         return self._mine()
@@ -148,9 +149,11 @@ class TwinSemLock:
         return self.v == 0
 
     def acquire(self, block=True, timeout=None):
+        who = self.s.tname()  # the enabledness of a parked request is also evaluated by the scheduler thread
+
         def enabled():
             out = []
-            if self.kind == RECURSIVE_MUTEX and self._mine():
+            if self.kind == RECURSIVE_MUTEX and self._mine(who):
                 return ["reenter"]
             if self.v > 0:
                 out.append("ok")
@@ -179,11 +182,13 @@ class TwinSemLock:
         return res
 
     def release(self):
+        who = self.s.tname()
+
         def enabled():
             if self.kind == RECURSIVE_MUTEX:
-                if not self._mine():
+                if not self._mine(who):
                     return ["notowner"]
-                return ["inner"] if self.cnt[self._p()] > 1 else ["ok"]
+                return ["inner"] if self.cnt[self._p(who)] > 1 else ["ok"]
             return ["toomany"] if self.v >= self.maxvalue else ["ok"]
         lab = self.s.request(self.name_, "release", enabled)
         p = self._p()
@@ -202,7 +207,37 @@ class TwinSemLock:
             self.s.done()
 
 
-def build_real_condition(sched, names, lock_cls, procs, tids, W=4):
+class _SchedField:
+    """Data descriptor: an instance attribute that the model treats as a shared field (auto-declared by
+    Compiler.declare_auto_fields) is read and written through the baton scheduler, like in the model."""
+
+    def __init__(self, sched, host, attr):
+        self.sched, self.host, self.attr = sched, host, attr
+
+    def __get__(self, obj, owner=None):
+        if obj is None:
+            return self
+        self.sched.request(self.host, f"get:{self.attr}", lambda: ["read"])
+        v = obj.__dict__.get("$" + self.attr, 0)
+        self.sched.done()
+        return v
+
+    def __set__(self, obj, value):
+        self.sched.request(self.host, f"set:{self.attr}", lambda: ["write"])
+        obj.__dict__["$" + self.attr] = value
+        self.sched.done()
+
+
+def with_sched_fields(cls, sched, oname, comp):
+    """Subclass of the real class whose auto-declared attributes of model object `oname` go through the scheduler."""
+    attrs = comp.objects.get(oname, {}).get("attrs", {}) if comp is not None else {}
+    auto = {a: v[1] for a, v in attrs.items() if isinstance(v, tuple) and v[0] == "field" and len(v) > 1 and v[1].endswith(".$auto")}
+    if not auto:
+        return cls
+    return type(cls.__name__, (cls,), {a: _SchedField(sched, host, a) for a, host in auto.items()})
+
+
+def build_real_condition(sched, names, lock_cls, procs, tids, W=4, comp=None):
     """Real loky objects around twin semlocks (mirrors mcond.build_condition)."""
     import loky.backend.synchronize as sy
     vmax = (1 << W) - 1
@@ -216,7 +251,8 @@ def build_real_condition(sched, names, lock_cls, procs, tids, W=4):
         lock = mk(sy.RLock, names["lock"], RECURSIVE_MUTEX, 1, 1)
     else:
         lock = mk(sy.Lock, names["lock"], SEMAPHORE, 1, 1)
-    cond = sy.Condition.__new__(sy.Condition)
+    CondCls = with_sched_fields(sy.Condition, sched, "cond", comp)
+    cond = CondCls.__new__(CondCls)
     cond._lock = lock
     cond._sleeping_count = mk(sy.Semaphore, names["sleeping"], SEMAPHORE, 0, vmax)
     cond._woken_count = mk(sy.Semaphore, names["woken"], SEMAPHORE, 0, vmax)
